@@ -14,6 +14,14 @@ macro_rules! conv { ($($t:ty),*) => { $(
 )* } }
 conv!(u8, u16, u32, u64, u128, i8, i16, i32, i64, i128);
 pub type Ext = Ty;
+/// a conversion type with generic arguments (`conv::Gen<u8>`): a path is more than its segment names
+#[derive(Clone, Copy, Debug, PartialEq, Eq)]
+pub struct Gen<T>(pub i128, pub core::marker::PhantomData<T>);
+macro_rules! convg { ($($t:ty),*) => { $(
+    impl<T> From<$t> for Gen<T> { fn from(v: $t) -> Self { Gen(v as i128, core::marker::PhantomData) } }
+    impl<T> From<Gen<T>> for $t { fn from(v: Gen<T>) -> Self { v.0 as $t } }
+)* } }
+convg!(u8, u16, u32, u64, u128, i8, i16, i32, i64, i128);
 '''
 
 MODULE_PRELUDE = "#[allow(unused_imports)] use crate::conv; #[allow(unused_imports)] use crate::conv::Ext;\n"
